@@ -46,9 +46,9 @@ CLASSES = {
     'Em': dict(module='field', bases=['Field'], attrs={}),
     'Sequence': dict(module='structural_fields', bases=['Field'], attrs={
         'prototype_field': 'ref:Field', 'aligned_to': 'dyn', 'seq_elem_field_name': 'str',
-        'when': 'dyn', 'get_how_many_elements': 'dyn', 'until_condition': 'dyn'}),
+        'when': 'dyn', 'get_how_many_elements': 'dyn', 'until_condition': 'dyn', 'tmp': 'dyn'}, optional=['tmp']),
     'Optional': dict(module='structural_fields', bases=['Field'], attrs={
-        'prototype_field': 'ref:Field', 'opt_elem_field_name': 'str', 'when': 'dyn'}),
+        'prototype_field': 'ref:Field', 'opt_elem_field_name': 'str', 'when': 'dyn', 'tmp': 'dyn'}, optional=['tmp']),
     'Prototype': dict(module='packet', bases=[], attrs={'template': 'dyn', 'clone': 'meth'},
                       methsel={'clone': ['packet:Prototype._clone_from_pickle', 'packet:Prototype._clone_from_live_obj']}),
     # code cache (C15): the generator object, the class object being built, module objects of the import system
@@ -61,7 +61,7 @@ CLASSES = {
     'AutoLength': dict(module='descriptor', bases=['Auto'], attrs={'length_of': 'str'}),
 }
 
-DISJOINT = [('Any', 'Field'), ('Any', 'Packet'), ('Any', 'Fragments'),
+DISJOINT = [('Auto', 'Field'), ('Auto', 'Packet'), ('Any', 'Field'), ('Any', 'Packet'), ('Any', 'Fragments'),
             ('Module', 'PktClass'), ('Module', 'CodeGenerator'), ('PktClass', 'CodeGenerator'), ('Module', 'Packet'), ('Module', 'Field'),
             ('Field', 'Packet'), ('Field', 'Fragments'), ('Packet', 'Fragments'),
             ('Int', 'Data'), ('Int', 'Bits'), ('Data', 'Bits'), ('Field', 'PacketError'),
